@@ -33,6 +33,7 @@ DEVIATIONS = {
     "outbox_cleared_before_push": (["InvNoLoss"], {"InvNoLoss"}),
     "exchange_late": (INVS, {"InvNoLoss", "InvNoPastDiscard", "InvSameDeliveries"}),
     "link_latency_no_sample": (["InvNoLoss"], {"InvNoLoss"}),
+    "cancelled_run_skips_bound": (INVS, {"InvNoPastDiscard"}),
 }
 DEV_CONFS = {"link_latency_no_sample": "ConfsOv"}
 KNOWN_KEY = {"PROP:discarded_past:window_overshoot": "overshoot_then_cross_event_discarded_as_past",
@@ -50,16 +51,17 @@ def tla_set(xs):
     return "{" + ",".join(f'"{x}"' for x in xs) + "}"
 
 
-def consts(confs, max_ev, max_t, *, max_out=2, max_lat=2, short="fixed", inter=False, dev=()):
+def consts(confs, max_ev, max_t, *, max_out=2, max_lat=2, short="fixed", inter=False, dev=(), cancels=True):
     return {"Confs": f"<- {confs}", "MaxLat": max_lat, "MaxEv": max_ev, "MaxT": max_t, "MaxOut": max_out,
-            "ShortWin": f'"{short}"', "Interleave": "TRUE" if inter else "FALSE", "Dev": tla_set(dev)}
+            "Cancels": "TRUE" if cancels else "FALSE", "ShortWin": f'"{short}"',
+            "Interleave": "TRUE" if inter else "FALSE", "Dev": tla_set(dev)}
 
 
-# (name, constants) of the exhaustive runs
+# (name, constants) of the exhaustive Dev={} runs
 def mc_plan(tier):
     if tier == "quick":
         return [
-            ("2 partitions (one-way, two-way links, finite end_time) and independent partitions",
+            ("2 partitions (one-way, two-way links, finite end_time) and independent partitions, timers",
              dict(confs="ConfsQ", max_ev=3, max_t=3)),
             ("free interleaving of partition steps", dict(confs="ConfsOne", max_ev=3, max_t=2, inter=True,
                                                         short="never")),
@@ -77,7 +79,7 @@ def mc_plan(tier):
 
 
 def gen_plan(tier):
-    """Configurations whose terminal states are replayed on the real code."""
+    """Configurations whose programs are replayed on the real code."""
     if tier == "quick":
         return [dict(confs="ConfsQ", max_ev=3, max_t=3)]
     return [dict(confs="ConfsA", max_ev=3, max_t=3, short="any"),
@@ -87,54 +89,195 @@ def gen_plan(tier):
             dict(confs="ConfsI", max_ev=4, max_t=2)]
 
 
-def model_check(chk: Check, tier, code_dev):
-    wd = tlc.workdir("C05_mc")
-    for k, (name, kw) in enumerate(mc_plan(tier)):
-        cfg = tlc.write_cfg(wd / f"clean_{k}.cfg", constants=consts(**kw), invariants=INVS, deadlock=True)
-        res = tlc.run(SPEC / "WindowedMC.tla", cfg, label="C05_mc", timeout=3000)
-        chk.add_tlc(f"Windowed Dev={{}} {name} {kw}", res)
-        chk.require(res.ok, f"Windowed.tla with Dev={{}} violates {res.violated} ({name}): the model is wrong")
-    cex = []
-    for dev, (invs, expect) in DEVIATIONS.items():
-        kw = dict(confs=DEV_CONFS.get(dev, "ConfsOne"), max_ev=3, max_t=2, max_lat=1, short="never", dev=[dev])
-        cfg = tlc.write_cfg(wd / f"dev_{dev}.cfg", constants=consts(**kw), invariants=invs, deadlock=True)
-        res = tlc.run(SPEC / "WindowedMC.tla", cfg, label="C05_mc", timeout=900)
-        chk.add_tlc(f"Windowed Dev={{{dev}}}", res, count=False, note="sensitivity run, must violate")
-        chk.require(res.violated in expect, f"deviation {dev} not caught (got {res.violated})")
-        chk.sensitivity[dev] = res.violated
-        if res.trace:
-            cex.append((dev, res.trace[-1][1]))
-    return cex
+def dev_job(dev):
+    """Sensitivity run of one deviation: small bounds in which its counterexample exists."""
+    invs, expect = DEVIATIONS[dev]
+    if dev == "cancelled_run_skips_bound":
+        # fixed pre-run events (canceller, timer at the window end, later live event, sender); TLC still
+        # chooses every handler result
+        return dict(init="InitTimers", next_="NextRun", invs=invs, expect=expect,
+                    kw=dict(confs="ConfsOne", max_ev=5, max_t=3, max_lat=1, short="never", dev=[dev]))
+    return dict(init="Init", next_="Next", invs=invs, expect=expect,
+                kw=dict(confs=DEV_CONFS.get(dev, "ConfsOne"), max_ev=3, max_t=2, max_lat=1, short="never",
+                        dev=[dev]))
+
+
+def _tlc_job(label, *, kw, invs=(), init="Init", next_="Next", workers=None, dump=False, timeout=3000,
+             deadlock=True):
+    wd = tlc.workdir(label)
+    cfg = tlc.write_cfg(wd / "run.cfg", init=init, next_=next_, constants=consts(**kw), invariants=list(invs),
+                        deadlock=deadlock)
+    extra = ["-dump", str(wd / "states")] if dump else None
+    res = tlc.run(SPEC / "WindowedMC.tla", cfg, label=label, extra=extra, timeout=timeout, workers=workers)
+    return res, wd
+
+
+def _gen_job(label, kw, code_dev, workers):
+    """Programs of the bounded model.  With no open deviation the partitioned phase need not be dumped:
+    the Dev={} runs prove that every terminal state has delivered exactly the reference run's events and
+    discarded nothing, so the build + reference phases (NextProg) enumerate (program, expected outcome)."""
+    full = bool(code_dev)
+    res, wd = _tlc_job(label, kw=dict(dev=code_dev, **kw), next_="Next" if full else "NextProg", workers=workers,
+                       dump=True, deadlock=full)
+    progs, outcomes = {}, {}
+    marker = 'phase = "done"' if full else 'phase = "seq"'
+    for st in tlc.parse_dump(wd / "states.dump", must_contain=marker):
+        if not full and st["sheap"]:
+            continue
+        p = Prog.from_state(st)
+        key = p.key()
+        progs.setdefault(key, p)
+        if full:
+            outcomes.setdefault(key, set()).add(outcome_of_state(st))
+        else:
+            outcomes.setdefault(key, set()).add((None, tuple(tuple(sorted(x)) for x in st["slog"]), ()))
+    (wd / "states.dump").unlink(missing_ok=True)
+    return res, progs, outcomes
 
 
 def outcome_of_state(st):
     return (tuple(st["shist"]), tuple(tuple(sorted(x)) for x in st["plog"]), tuple(sorted(st["dropped"])))
 
 
-def model_programs(chk: Check, tier, code_dev):
-    """Terminal states of the as-code model: program -> set of outcomes (window shortness history,
-    per-entity delivered ids, discarded ids)."""
-    wd = tlc.workdir("C05_gen")
-    progs, outcomes = {}, {}
-    for k, kw in enumerate(gen_plan(tier)):
-        cfg = tlc.write_cfg(wd / f"gen_{k}.cfg", constants=consts(dev=code_dev, **kw), deadlock=True)
-        res = tlc.run(SPEC / "WindowedMC.tla", cfg, label="C05_gen", extra=["-dump", str(wd / "states")],
-                      timeout=3000)
-        chk.add_tlc(f"behaviour generation Dev={code_dev} {kw}", res, count=False,
-                    note="terminal states enumerate (program, outcome) pairs of the as-code model")
-        for st in tlc.parse_dump(wd / "states.dump", must_contain='phase = "done"'):
-            p = Prog.from_state(st)
-            key = p.key()
-            progs.setdefault(key, p)
-            outcomes.setdefault(key, set()).add(outcome_of_state(st))
-        (wd / "states.dump").unlink(missing_ok=True)
-    return progs, outcomes
+class TlcPlan:
+    """All repository-independent TLC runs, started in the background (the machine has 16 cores: one big run
+    on half of them, the small sensitivity runs on one worker each) while the drivers run the real code."""
+
+    def __init__(self, tier, code_dev, skip_mc):
+        from concurrent.futures import ThreadPoolExecutor
+        self.tier, self.code_dev = tier, code_dev
+        w = tlc.DEFAULT_WORKERS
+        quick = tier == "quick"
+        self.heavy = ThreadPoolExecutor(max_workers=3 if quick else 1)
+        self.light = ThreadPoolExecutor(max_workers=8)
+        self.clean, self.devs, self.gens = [], [], []
+        # generation first: the replays wait for it
+        for k, kw in enumerate(gen_plan(tier)):
+            self.gens.append((kw, self.heavy.submit(_gen_job, f"C05_gen_{k}", kw, code_dev,
+                                                    max(2, w // 4) if quick else w)))
+        if not skip_mc:
+            for k, (name, kw) in enumerate(mc_plan(tier)):
+                heavy_job = k == 0 or not quick
+                self.clean.append((name, kw, (self.heavy if heavy_job else self.light).submit(
+                    _tlc_job, f"C05_mc_{k}", kw=kw, invs=INVS,
+                    workers=(max(2, w // 2) if quick else w) if heavy_job else 2)))
+            for dev in DEVIATIONS:
+                j = dev_job(dev)
+                self.devs.append((dev, j, self.light.submit(_tlc_job, f"C05_dev_{dev}", kw=j["kw"], invs=j["invs"],
+                                                            init=j["init"], next_=j["next_"], workers=1,
+                                                            timeout=900)))
+
+    def programs(self, chk):
+        progs, outcomes = {}, {}
+        for kw, fut in self.gens:
+            res, pg, oc = fut.result()
+            chk.add_tlc(f"program generation Dev={self.code_dev} {kw}", res, count=False,
+                        note="terminal states of the reference phase enumerate the programs of the bounded model"
+                        if not self.code_dev else "terminal states enumerate (program, outcome) pairs")
+            progs.update(pg)
+            for k, v in oc.items():
+                outcomes.setdefault(k, set()).update(v)
+        return progs, outcomes
+
+    def counterexamples(self, chk):
+        cex = []
+        for dev, j, fut in self.devs:
+            res, _wd = fut.result()
+            chk.add_tlc(f"Windowed Dev={{{dev}}}", res, count=False, note="sensitivity run, must violate")
+            chk.require(res.violated in j["expect"], f"deviation {dev} not caught (got {res.violated})")
+            chk.sensitivity[dev] = res.violated
+            if res.trace:
+                cex.append((dev, res.trace[-1][1]))
+        return cex
+
+    def finish_clean(self, chk):
+        for name, kw, fut in self.clean:
+            res, _wd = fut.result()
+            chk.add_tlc(f"Windowed Dev={{}} {name} {kw}", res)
+            chk.require(res.ok, f"Windowed.tla with Dev={{}} violates {res.violated} ({name}): the model is wrong")
+        self.heavy.shutdown()
+        self.light.shutdown()
 
 
 # ---------------------------------------------------------------------------
 # random programs beyond the model's bounds
 
 TOPOLOGIES = ("chain", "cycle", "full", "star", "oneway")
+STYLES = ("sparse", "dense", "burst", "boundary", "idle", "chainy", "timers")
+
+
+def add_timers(rng, evs, cont, prob=0.5):
+    """Let handlers disarm pending timers of their own entity: c is cancelled by b when both target the
+    same entity, b is due strictly before c and strictly after c was created (so the outcome of cancel()
+    is the same under every engine and every order of equal timestamps)."""
+    cby = {}
+    for c, (tc, gc, pc) in enumerate(evs, start=1):
+        if c in cont or rng.random() > prob:
+            continue
+        if pc and evs[pc - 1][1] != gc:
+            continue
+        t_made = evs[pc - 1][0] if pc else -1
+        cands = [b for b, (tb, gb, _pb) in enumerate(evs, start=1)
+                 if gb == gc and t_made < tb < tc and b not in cont and b != c and b not in cby]
+        if cands:
+            cby[c] = rng.choice(cands)
+    return cby
+
+
+def timer_prog(rng) -> Prog:
+    """Timers armed and cancelled around a window boundary: in the receiving partition the LAST heap entry
+    at or just before a window end is a cancelled timer, the next live event lies one or more windows later,
+    and a cross-partition event arrives in between (plus variations and noise)."""
+    np_ = rng.choice([2, 2, 3])
+    ep = []
+    for p in range(1, np_ + 1):
+        ep += [p] * rng.choice([1, 1, 2])
+    by_part = {p: [e for e in range(1, len(ep) + 1) if ep[e - 1] == p] for p in range(1, np_ + 1)}
+    links = [(1, 2)] + ([(2, 1)] if rng.random() < 0.5 else []) + ([(2, 3), (1, 3)] if np_ == 3 else [])
+    unit = rng.random() < 0.5
+    lat = {l: (1 if unit else rng.randint(1, 3)) for l in links}
+    lmin = min(lat.values())
+    w = lmin if rng.random() < 0.7 else rng.randint(1, lmin)
+    evs, cby = [], {}
+    for q in sorted({b for (_a, b) in links}):
+        src = rng.choice([a for (a, b) in links if b == q])
+        x = rng.choice(by_part[q])
+        k = rng.randint(1, 5)
+        end = k * w                                   # a window end
+        tc = max(1, end - rng.choice([0, 0, 0, 1]))   # the timer, last entry inside the window
+        tb = rng.randint(0, tc - 1)                   # its canceller
+        gap = rng.choice([2, w + 1, 2 * w + 1, 3 * w])
+        t_live = end + gap                            # next live event of the partition
+        if rng.random() < 0.5:                        # timer armed by an earlier handler of x ...
+            ta = rng.randint(0, tb)
+            if ta < tb:
+                evs.append((ta, x, 0))
+                a = len(evs)
+                evs.append((tc, x, a))
+            else:
+                evs.append((tc, x, 0))
+        else:                                         # ... or before the run
+            evs.append((tc, x, 0))
+        c = len(evs)
+        evs.append((tb, x, 0))
+        cby[c] = len(evs)
+        for _ in range(rng.choice([0, 1, 2])):        # a run of cancelled timers
+            t2 = max(tb + 1, tc - rng.choice([0, 0, 1]))
+            evs.append((t2, x, 0))
+            cby[len(evs)] = cby[c]
+        evs.append((t_live, rng.choice(by_part[q]), 0))
+        # cross arrivals between the window end and the live event
+        for _ in range(rng.choice([1, 1, 2])):
+            tm = rng.randint(end, t_live)
+            tg = tm - lat[(src, q)] - rng.choice([0, 0, 1])
+            if tg < 0:
+                continue
+            evs.append((tg, rng.choice(by_part[src]), 0))
+            evs.append((tg + (tm - tg), rng.choice(by_part[q]), len(evs)))
+    end_t = INF if rng.random() < 0.85 else rng.randint(3, 12)
+    prog = Prog(ep=ep, np=np_, links=links, lat=lat, w=w, end_t=end_t, evs=evs, cby=cby).canonical()
+    prog.check()
+    return prog
 
 
 def topology(rng, np_, kind):
@@ -157,7 +300,9 @@ def random_prog(rng: random.Random, k: int, independent=False) -> Prog:
         ep += [p] * rng.choice([1, 1, 2, 3] if not independent else [1, 2])
     ents = list(range(1, len(ep) + 1))
     by_part = {p: [e for e in ents if ep[e - 1] == p] for p in range(1, np_ + 1)}
-    style = ("sparse", "dense", "burst", "boundary", "idle", "chainy")[k % 6]
+    style = STYLES[k % len(STYLES)]
+    if style == "timers" and not independent:
+        return timer_prog(rng)
     if independent:
         links, lat, w = [], {}, 0
     else:
@@ -230,8 +375,9 @@ def random_prog(rng: random.Random, k: int, independent=False) -> Prog:
                     has_cont = True
                 else:
                     evs.append((t + dt, rng.choice(by_part[p]), i))
+    cby = add_timers(rng, evs, cont) if rng.random() < 0.35 else {}
     prog = Prog(ep=ep, np=np_, links=links, lat=lat, w=w, end_t=end_t, evs=evs, cont=frozenset(cont),
-                override=override, real_dist=bool(override) and rng.random() < 0.5).canonical()
+                override=override, real_dist=bool(override) and rng.random() < 0.5, cby=cby).canonical()
     prog.check()
     return prog
 
@@ -293,14 +439,16 @@ def prog_json(p: Prog):
     return dict(ep=p.ep, np=p.np, links=[list(l) for l in p.links],
                 lat=[[a, b, v] for (a, b), v in sorted(p.lat.items())], w=p.w, end_t=p.end_t,
                 evs=[list(e) for e in p.evs], cont=sorted(p.cont),
-                override=[[a, b, v] for (a, b), v in sorted(p.override.items())], real_dist=p.real_dist)
+                override=[[a, b, v] for (a, b), v in sorted(p.override.items())], real_dist=p.real_dist,
+                cby=[[c, b] for c, b in sorted(p.cby.items())])
 
 
 def prog_from_json(d) -> Prog:
     return Prog(ep=d["ep"], np=d["np"], links=[tuple(l) for l in d["links"]],
                 lat={(a, b): v for a, b, v in d["lat"]}, w=d["w"], end_t=d["end_t"],
                 evs=[tuple(e) for e in d["evs"]], cont=frozenset(d.get("cont", ())),
-                override={(a, b): v for a, b, v in d.get("override", ())}, real_dist=d.get("real_dist", False))
+                override={(a, b): v for a, b, v in d.get("override", ())}, real_dist=d.get("real_dist", False),
+                cby={c: b for c, b in d.get("cby", ())})
 
 
 def real_outcome(prog: Prog, par):
@@ -310,14 +458,30 @@ def real_outcome(prog: Prog, par):
     return shist, plog, dropped
 
 
+def judged_sets(p: Prog, plog):
+    """Per-entity delivered ids restricted to the compared range (strictly before a finite end_time)."""
+    return tuple(tuple(i for i in ids if p.end_t == INF or p.evs[i - 1][0] < p.end_t) for ids in plog)
+
+
 def trace_consts(code_dev):
-    return {"Confs": "{}", "MaxLat": 1, "MaxEv": 1, "MaxT": 1, "MaxOut": 1, "ShortWin": '"any"',
+    return {"Confs": "{}", "MaxLat": 1, "MaxEv": 1, "MaxT": 1, "MaxOut": 1, "Cancels": "TRUE", "ShortWin": '"any"',
             "Interleave": "TRUE", "Dev": tla_set(code_dev)}
 
 
 def judge(chk: Check, runner: Runner, code_dev, label="C05_trace"):
-    verdicts, results = tlc.validate_traces(SPEC / "WindowedTrace.tla", runner.traces, label=label,
-                                            spec="TSpec", constants=trace_consts(code_dev), chunk=3000)
+    from concurrent.futures import ThreadPoolExecutor
+    n = len(runner.traces)
+    nchunk = max(1, min(6, n // 150))
+    parts = [runner.traces[j::nchunk] for j in range(nchunk)]      # strided: long and short traces mixed
+
+    def one(j):
+        return tlc.validate_traces(SPEC / "WindowedTrace.tla", parts[j], label=f"{label}_{j}", spec="TSpec",
+                                   constants=trace_consts(code_dev), chunk=3000)
+    verdicts, results = {}, []
+    with ThreadPoolExecutor(max_workers=len(parts)) as pool:
+        for v, r in pool.map(one, range(len(parts))):
+            verdicts.update(v)
+            results.extend(r)
     for r in results:
         chk.add_tlc("WindowedTrace batch", r, note="trace validation (one state per record)")
     chk.impl_traces = len(runner.traces)
@@ -369,22 +533,35 @@ def run(tier, seed, replay=None):
         return run_replay(chk, replay, code_dev)
     rng = random.Random(seed)
     import time
-    t0 = time.time()
+    t_start = time.time()
     phases = chk.extra.setdefault("phase_wall_s", {})
-    # development aid (mutation loops): VERIF_C05_SKIP_MC=1 skips the repository-independent TLC runs
-    cex = [] if os.environ.get("VERIF_C05_SKIP_MC") else model_check(chk, tier, code_dev)
-    phases["model_checking"] = round(time.time() - t0, 1)
+    # development aid (mutation loops): VERIF_C05_SKIP_MC=1 skips the Dev={} and sensitivity TLC runs
+    plan = TlcPlan(tier, code_dev, bool(os.environ.get("VERIF_C05_SKIP_MC")))   # TLC runs in the background
     runner = Runner(chk)
 
-    # ---- spec -> code -------------------------------------------------------
+    # ---- code -> spec: random programs (while TLC is running) ---------------------
     t0 = time.time()
-    progs, outcomes = model_programs(chk, tier, code_dev)
-    phases["behaviour_generation"] = round(time.time() - t0, 1)
+    n_rand = 420 if tier == "quick" else 4500
+    for k in range(n_rand):
+        indep = k % 8 == 7
+        p = random_prog(rng, k, independent=indep)
+        opts = random_opts(rng, p, k)
+        runner.execute(p, opts, "random")
+        if k % 5 == 0:      # same program, other pool size / tick: thread interleavings, window shortness
+            runner.execute(p, random_opts(rng, p, k + 1 + rng.randint(0, 3)), "random-repeat")
+    phases["random_drivers"] = round(time.time() - t0, 1)
+
+    # ---- spec -> code ---------------------------------------------------------------
+    t0 = time.time()
+    progs, outcomes = plan.programs(chk)
+    phases["waited_for_program_generation"] = round(time.time() - t0, 1)
     t0 = time.time()
     keys = sorted(progs)
     cap = 400 if tier == "quick" else 2000
-    chosen = keys if len(keys) <= cap else rng.sample(keys, cap)
-    chk.exhaustive = len(chosen) == len(keys)
+    timers = [k for k in keys if progs[k].cby]
+    chosen = keys if len(keys) <= cap else rng.sample(keys, cap - min(len(timers), cap // 4)) + \
+        rng.sample(timers, min(len(timers), cap // 4))
+    chk.exhaustive = len(set(chosen)) == len(keys)
     matched = unmatched_hist = 0
     variants = [Opts(tick_ns=10**9), Opts(tick_ns=250_250, workers=1), Opts(tick_ns=300_000, form="single")]
     for n, key in enumerate(chosen):
@@ -393,20 +570,23 @@ def run(tier, seed, replay=None):
         for opts in vs:
             tid, par, _ref = runner.execute(p, opts, "model")
             got = real_outcome(p, par)
-            same_hist = [o for o in outcomes[key] if o[0] == got[0]]
+            same_hist = [o for o in outcomes[key] if o[0] is None or o[0] == got[0]]
             if not same_hist:
                 unmatched_hist += 1
-            elif got in same_hist:
+            elif any(got[1:] == o[1:] for o in same_hist) or \
+                    any(o[0] is None and judged_sets(p, got[1]) == judged_sets(p, o[1]) and not got[2]
+                        for o in same_hist):
                 matched += 1
             else:
-                chk.note_drift(f"final state differs from Windowed.tla: code={got} model={sorted(same_hist)[:3]} "
+                chk.note_drift(f"final state differs from Windowed.tla: code={got} model={sorted(same_hist, key=str)[:3]} "
                                f"prog={prog_json(p)} tick={opts.tick_ns}")
         chk.replays += 1
     chk.extra["replay_final_state_matched"] = matched
     chk.extra["replay_window_history_outside_generated_set"] = unmatched_hist
     chk.extra["model_programs_total"] = len(keys)
+    chk.extra["model_programs_with_timers"] = len(timers)
     # counterexamples of the sensitivity runs, executed on the real code (model artefact or defect?)
-    for dev, st in cex:
+    for dev, st in plan.counterexamples(chk):
         try:
             p = Prog.from_state(st)
             if p.links and p.w > min(p.lat.values()):
@@ -417,23 +597,15 @@ def run(tier, seed, replay=None):
         tid, par, ref = runner.execute(p, Opts(tick_ns=10**9), f"counterexample:{dev}")
         chk.replays += 1
         chk.extra.setdefault("counterexamples_on_code", {})[dev] = runner.meta[tid]["py"]
-
     phases["replay_on_code"] = round(time.time() - t0, 1)
-    t0 = time.time()
-    # ---- code -> spec ---------------------------------------------------------
-    n_rand = 400 if tier == "quick" else 4500
-    for k in range(n_rand):
-        indep = k % 8 == 7
-        p = random_prog(rng, k, independent=indep)
-        opts = random_opts(rng, p, k)
-        runner.execute(p, opts, "random")
-        if k % 5 == 0:      # same program, other pool size / tick: thread interleavings, window shortness
-            runner.execute(p, random_opts(rng, p, k + 1 + rng.randint(0, 3)), "random-repeat")
 
-    phases["random_drivers"] = round(time.time() - t0, 1)
     t0 = time.time()
     counts = judge(chk, runner, code_dev)
     phases["trace_validation"] = round(time.time() - t0, 1)
+    t0 = time.time()
+    plan.finish_clean(chk)
+    phases["waited_for_model_checking"] = round(time.time() - t0, 1)
+    phases["total"] = round(time.time() - t_start, 1)
     side_checks(chk)
     chk.extra["verdict_counts"] = counts
     chk.extra["entity_touched_outside_its_partition_window"] = runner.foreign
@@ -452,8 +624,9 @@ def run(tier, seed, replay=None):
         "thread interleavings are sampled (pool sizes 1, 2, n; repeats), not enumerated; the model explores all "
         "interleavings of partition steps and the harness checks that no entity is touched outside its "
         "partition's window call",
-        "link.latency overrides are exercised with a constant-delay object providing sample(); "
-        "LatencyDistribution subclasses have no sample() (see report)",
+        "handlers cancel only pending timers of their own entity that are due strictly later and were created "
+        "strictly earlier than the cancelling delivery, so the effect of Event.cancel() does not depend on the "
+        "order of equal timestamps",
     ]
     chk.explanation = ("TLC explores Windowed.tla (sequential reference + windowed partitions on the same "
                        "TLC-chosen program) exhaustively within the bounds; every terminal program is built on "
